@@ -868,22 +868,17 @@ class Epoch(object):
         if isinstance(year, (int, float)) and isinstance(doy, (int, float)):
             frac = float(doy % 1)
             doy = int(doy)
-            if year >= 1:  # datetime's minimum year is 1
-                ref = datetime.date(year, 1, 1)
-                mydate = datetime.date.fromordinal(ref.toordinal() + doy - 1)
-                return year, mydate.month, mydate.day + frac
+            # Meeus' algorithm (chapter 7) works for any year and for both
+            # calendars when the leap rule in force is used; 'datetime' would
+            # apply the Gregorian rule to Julian calendar years
+            k = 1 if Epoch.is_leap(year) else 2
+            if doy < 32:
+                m = 1
             else:
-                # The algorithm provided by Meeus doesn't work for years below
-                # +1. This little hack solves that problem (the 'if' result is
-                # inverted here).
-                k = 1 if Epoch.is_leap(year) else 2
-                if doy < 32:
-                    m = 1
-                else:
-                    m = iint((9.0 * (k + doy)) / 275.0 + 0.98)
-                d = (doy - iint((275.0 * m) / 9.0)
-                     + k * iint((m + 9.0) / 12.0) + 30)
-                return year, int(m), d + frac
+                m = iint((9.0 * (k + doy)) / 275.0 + 0.98)
+            d = (doy - iint((275.0 * m) / 9.0)
+                 + k * iint((m + 9.0) / 12.0) + 30)
+            return year, int(m), d + frac
         else:
             raise ValueError("Invalid input values")
 
